@@ -6,6 +6,8 @@ NOTE = ("Trusted base: rustc nightly's MIR construction, callee resolution and c
         "the Python rule engine in /verif/sa; reviewed exception tables inside the rules. The check decides the structural clauses "
         "named in level_claimed.text, not the full input/output behaviour of the property.")
 CLAIMS = {
+ "C01": ("translation-validation style step rules on MIR: forward value numbering of the loop-free rolling-hash step, exhaustive check of the rustc-evaluated FNV table, per-level store table with exact guards and dominance orderings, digest-assembly rows, sibling/engine correspondence",
+         "Decides that each STEP of the generator (rolling hash update, 6-bit FNV step, trigger test, per-level piece/fork/elimination effects, initial state, block-size choice borders, digest assembly incl. the unfinished piece) is the step ssdeep 2.14.1 defines, in all update forms and both engines. That the iterated relation equals libfuzzy's where the two differ by design (roll_mask shortcut, fork limit, last-piece hash) is NOT decided - no byte-exactness claim over inputs.", "§13 C01"),
  "C12": ("field-agreement (reset==new) + exact branch-guard extraction + error-path purity + delegation, on rustc MIR",
          "Structural necessary conditions on every CFG path and build configuration: reset re-initialises every generator field like new() (3 reasoned exceptions with side conditions); the two refusals and the finalisation mismatch have exactly the stated guards; refusals do not modify the generator; all finalisers share one implementation. Not a proof that a correct hint leaves the hash unchanged.", "§3.3-3.5, §4 C12"),
  "C13": ("exact branch-guard extraction normalised to intervals, with rustc-evaluated constants, on MIR",
@@ -42,7 +44,6 @@ CLAIMS = {
          "Decides: debug assertions on/off change no body; each feature changes only reviewed bodies, each covered by its own rule (engine correspondence and mirror rules, FNV table == arithmetic step on all 64x64, strict parser take(N)/look-ahead, ASCII-only output for the UTF-8 shortcuts); 24 *_unchecked twins compute the same internal call as their safe forms; all 80 invariant! assumptions are subsumed by a run-time check of the safe build or a reviewed structural argument. Extensional equality on inputs is NOT decided.", "§3.11, §4 C14"),
 }
 NA = {
- "C01": "byte-exact agreement with the ssdeep CTPH algorithm is numeric over all inputs (piece boundaries, FNV folding, fork/elimination); no necessary condition is visible in code shape beyond those checked under C11/C12/C13/C14/C19; static analysis cannot decide it",
  "C08": "exactness of the bit-parallel LCS recurrence is an arithmetic loop invariant over 64-bit words (carry propagation); deciding it needs execution or a solver, which is a different technique family",
  "C09": "exactness of the shift-and scan with skipping is an algorithmic invariant over bit masks; only its length guards are structural and those are checked under C10",
 }
